@@ -65,6 +65,40 @@ OPAQUE = {}
 _opq = itertools.count()
 
 
+LA_LOG = []  # call sites of linear-algebra dependencies in the current execution
+_opq_t = {}
+
+
+def reset_execution():
+    """called at the start of every (re-)execution of a path so that opaque names are deterministic"""
+    LA_LOG.clear()
+    SQRT_LOG.clear()
+    _opq_t.clear()
+    X.ORTHO.clear()
+    global _opq
+    _opq = itertools.count()
+
+
+def axis_sizes(t):
+    """per axis: the list of digit sizes (so that an opaque result keeps the mixed-radix structure of its source)"""
+    t = lift(t)
+    return [[VSIZE[v] for v in ax] if ax else 1 for ax in t.axes]
+
+
+def flat_sizes(t):
+    return [VSIZE[v] for v in lift(t).digits()]
+
+
+def opaque_tensor(prefix, dims, dtype="float64", ortho_axis=None):
+    k = _opq_t.get(prefix, 0)
+    _opq_t[prefix] = k + 1
+    name = f"{prefix}#{k}"
+    t = sym_input(name, [d for d in dims], dtype)
+    if ortho_axis is not None:
+        X.ORTHO[name] = ortho_axis  # assumed contract of the dependency (A3): orthonormal along this axis
+    return t
+
+
 def opaque_scalar(op, operand, dtype=None):
     name = f"{op.upper()}#{next(_opq)}"
     OPAQUE[name] = (op, operand)
@@ -455,15 +489,99 @@ def _map_func(name, body):
     return X.func(name, body)
 
 
+SQRT_LOG = []  # (syntactically non-negative operand?, short description) for every sqrt executed: float-robust sign domain
+
+
 def g_sqrt(t):
     log("sqrt")
     t = lift(t)
+    SQRT_LOG.append((X._is_sum_of_squares(t.body), repr(t.body)[:160]))
     return GTensor(t.axes, t.body.power(Fraction(1, 2)), _result_dtype(t, 1.0) if not t.dtype.startswith(("float", "complex")) else t.dtype)
 
 
 def g_sign(t):
     log("sign")
     return GTensor(t.axes, X.func("sign", t.body), t.dtype)
+
+
+def elementwise(name, t, *params):
+    """An uninterpreted elementwise function of t (and scalar parameters): clip, maximum with a constant, exp, ..."""
+    log(name)
+    t = lift(t)
+    ps = tuple(X.as_expr(p) if not isinstance(p, GTensor) else p.body for p in params)
+    return GTensor(t.axes, X.func(name, t.body, *ps), t.dtype if t.dtype.startswith(("float", "complex")) else "float64")
+
+
+def trace(t):
+    log("trace")
+    t = inst(lift(t))
+    if t.ndim != 2:
+        raise EngineError("trace of non-matrix")
+    a, b = t.axes
+    if len(a) != len(b) or not all(same(VSIZE[u], VSIZE[w]) or bool(SInt.lift(VSIZE[u]) == VSIZE[w]) for u, w in zip(a, b)):
+        raise EngineError("trace of a non-square symbolic matrix")
+    body = t.body.subst({w: u for u, w in zip(a, b)})
+    for u in a:
+        body = body.sum_over(u)
+    return GTensor([], body, t.dtype)
+
+
+def _flatten_axis(t, axis):
+    """re-express a composite axis [d1..dk] by one digit q of size prod: d_j = (q div prod(sizes after j)) mod size_j"""
+    ax = t.axes[axis]
+    sizes = [VSIZE[v] for v in ax]
+    q = fresh(sprod(sizes), "f")
+    sub = {}
+    for j, v in enumerate(ax):
+        after = sprod(sizes[j + 1:]) if j + 1 < len(ax) else 1
+        term = q
+        if not (isinstance(after, builtins.int) and after == 1):
+            term = ("DIV", term, sint_key(after))
+        if j > 0:
+            term = ("MOD", term, sint_key(sizes[j]))
+        sub[v] = term
+    axes = list(t.axes)
+    axes[axis] = [q]
+    return GTensor(axes, t.body.subst(sub), t.dtype)
+
+
+def concatenate(tensors, axis=0):
+    log("concatenate")
+    ts = [inst(lift(t)) for t in tensors]
+    if len(ts) == 1:
+        return ts[0]
+    nd = ts[0].ndim
+    axis = axis % nd
+    for k_, t in enumerate(ts):
+        if t.ndim != nd:
+            raise ValueError("all the input array dimensions except for the concatenation axis must match exactly")
+        if len(t.axes[axis]) > 1:
+            ts[k_] = _flatten_axis(t, axis)
+    sizes = [sprod(VSIZE[v] for v in t.axes[axis]) for t in ts]
+    total = sum(sizes[1:], sizes[0])
+    new = fresh(total, "q")
+    ref = ts[0]
+    body = Expr()
+    off = 0
+    for t, sz in zip(ts, sizes):
+        sub = {}
+        for k in range(nd):
+            if k == axis:
+                continue
+            x, y = ref.axes[k], t.axes[k]
+            if len(x) != len(y) or not all(same(VSIZE[u], VSIZE[w]) or bool(SInt.lift(VSIZE[u]) == VSIZE[w]) for u, w in zip(x, y)):
+                raise ValueError("all the input array dimensions except for the concatenation axis must match exactly")
+            for u, w in zip(x, y):
+                sub[w] = u
+        # piece occupies off <= new < off + sz :  [new < off+sz] - [new < off]
+        ind = X.indicator(new, off + sz) - (X.indicator(new, off) if not (isinstance(off, builtins.int) and off == 0) else X.const(0))
+        if t.axes[axis]:
+            sub[t.axes[axis][0]] = ("O", new, sint_key(off)) if not (isinstance(off, builtins.int) and off == 0) else new
+        body = body + t.body.subst(sub) * ind
+        off = off + sz
+    axes = list(ref.axes)
+    axes[axis] = [new]
+    return GTensor(axes, body, _result_dtype(*[t.dtype for t in ts]))
 
 
 # ------------------------------------------------------------------------------------------------ reductions
@@ -763,8 +881,9 @@ def getitem(t, idx):
         raise EngineError("advanced indexing in E1-generic")
     t = inst(t)
     items = _expand_index(t, idx)
-    if sum(1 for it in items if isinstance(it, GTensor)) > 1:
-        raise EngineError("more than one index tensor")
+    adv = [k for k, it in enumerate(items) if isinstance(it, GTensor)]
+    if len(adv) > 1:
+        return _multi_gather(t, items, adv)
     axes = []
     body = t.body
     ai = 0
@@ -847,6 +966,48 @@ def getitem(t, idx):
                 body = body.subst({ax[0]: it})
             continue
         raise EngineError(f"unsupported index {it!r}")
+    return GTensor(axes, body, t.dtype)
+
+
+def _multi_gather(t, items, adv):
+    """numpy advanced indexing with several 1-D index vectors (broadcast together: one shared sample axis).
+    The sample axis goes where the advanced indices were if they are adjacent, else first (numpy's rule)."""
+    if any(it is None for it in items):
+        raise EngineError("newaxis together with several index vectors")
+    gs = [inst(items[k]) for k in adv]
+    if any(g.ndim != 1 or len(g.axes[0]) != 1 for g in gs):
+        raise EngineError("index tensors must be vectors")
+    s0 = gs[0].axes[0][0]
+    body = t.body
+    rest_axes = {}
+    for k, it in enumerate(items):
+        ax = t.axes[k]
+        if isinstance(it, GTensor):
+            g = gs[adv.index(k)]
+            if not (same(VSIZE[g.axes[0][0]], VSIZE[s0]) or bool(SInt.lift(VSIZE[g.axes[0][0]]) == VSIZE[s0])):
+                raise IndexError("shape mismatch: indexing arrays could not be broadcast together")
+            ts = g.body.subst({g.axes[0][0]: s0}).terms
+            if len(ax) != 1 or len(ts) != 1 or ts[0].coef != 1 or ts[0].bound or len(ts[0].facs) != 1 or ts[0].facs[0][0][0] != "E":
+                raise EngineError("index tensor is not a plain symbolic integer input")
+            ea = ts[0].facs[0][0]
+            body = body.subst({ax[0]: ("G", ea[1], ea[2])})
+        elif isinstance(it, slice):
+            if not (it.start in (None, 0) and it.stop is None and it.step in (None, 1)):
+                raise EngineError("partial slice together with index vectors")
+            rest_axes[k] = ax
+        else:
+            raise EngineError("mixed int / vector indexing")
+    adjacent = adv == list(range(adv[0], adv[-1] + 1))
+    axes = []
+    if not adjacent:
+        axes.append([s0])
+        axes.extend(rest_axes[k] for k in sorted(rest_axes))
+    else:
+        for k in range(len(items)):
+            if k == adv[0]:
+                axes.append([s0])
+            elif k in rest_axes:
+                axes.append(rest_axes[k])
     return GTensor(axes, body, t.dtype)
 
 
@@ -984,6 +1145,12 @@ def eval_term(t, free, env, inputs):
             dig = [builtins.int(SInt.lift(s).subs(env)) for s in INPUTS[i[1]]["digits"]]
             arr = arr.reshape(dig)
             return arr[tuple(idx_val(j) for j in i[2])].astype(builtins.int)
+        if isinstance(i, tuple) and i and i[0] == "O":
+            return idx_val(i[1]) - builtins.int(X.size_from_key(i[2]).subs(env))
+        if isinstance(i, tuple) and i and i[0] == "DIV":
+            return idx_val(i[1]) // builtins.int(X.size_from_key(i[2]).subs(env))
+        if isinstance(i, tuple) and i and i[0] == "MOD":
+            return idx_val(i[1]) % builtins.int(X.size_from_key(i[2]).subs(env))
         return i
 
     val = np.ones([1] * nd, dtype=float) * float(t.coef) if nd else np.array(float(t.coef))
@@ -998,7 +1165,7 @@ def eval_term(t, free, env, inputs):
             arr = arr.reshape(dig)
             ii = tuple(idx_val(i) for i in a[2])
             # out-of-range indices can occur transiently only under indicators; clip and rely on the indicator
-            ii = tuple(np.clip(x, 0, d - 1) if not isinstance(x, builtins.int) else min(x, d - 1) for x, d in zip(ii, dig))
+            ii = tuple(np.clip(x, 0, d - 1) if not isinstance(x, builtins.int) else max(0, min(x, d - 1)) for x, d in zip(ii, dig))
             v = arr[ii] if ii else arr[()]
             if a[3]:
                 v = np.conj(v)
@@ -1008,6 +1175,8 @@ def eval_term(t, free, env, inputs):
             v = (idx_val(a[1]) < builtins.int(X.size_from_key(a[2]).subs(env))) * 1.0
         elif k == "N":
             v = float(X.size_from_key(a[1]).subs(env))
+        elif k == "K":
+            v = float(a[1])
         elif k == "P":
             v = eval_expr_in(a[1], vars_, env, inputs)
         elif k == "F":
@@ -1034,4 +1203,5 @@ def eval_expr_in(e, outer_vars, env, inputs):
 _FUNCS = {
     "abs": np.abs,
     "sign": np.sign,
+    "clip": lambda x, lo, hi: np.clip(x, None if np.all(np.isinf(lo)) else lo, None if np.all(np.isinf(hi)) else hi),
 }
